@@ -273,6 +273,20 @@ def run(ctx):
       oc, M = outcome(lambda: _initialize_metric_mahalanobis(inp_arr, S, strict_pd=False))
       if oc != 'ok':
         ctx.fail_input('init_metric', 'singular PSD array rejected although strict_pd=False', dict(input=label))
+    # the (pseudo-)inverse covariance of the same points in a tiny unit is the same matrix in that unit: M(c X) = M(X) / c^2
+    c = 2.0 ** -30
+    oc, r = outcome(lambda: _initialize_metric_mahalanobis(Xpts, 'covariance', return_inverse=True))
+    oc2, r2 = outcome(lambda: _initialize_metric_mahalanobis(Xpts * c, 'covariance', return_inverse=True))
+    ctx.count('init_metric', 1)
+    if oc == 'ok' and (oc2 != 'ok' or not np.allclose(r2[0] * c * c, r[0], rtol=1e-6, atol=1e-9 * np.abs(r[0]).max())
+                       or not np.allclose(r2[1] / (c * c), r[1], rtol=1e-6, atol=1e-9 * np.abs(r[1]).max())):
+      ctx.fail_input('init_metric', "'covariance' of data in units of 2^-30 is not the (pseudo-)inverse covariance (M(cX) != M(X) / c^2)",
+                     dict(X=Xpts.tolist(), c=c), observed=str(oc2) if oc2 != 'ok' else r2[0].tolist())
+    # the zero matrix is singular
+    oc, M = outcome(lambda: _initialize_metric_mahalanobis(Xpts, np.zeros((d, d)), strict_pd=True))
+    ctx.count('strict_pd', 1)
+    if oc != 'LinAlgError':
+      ctx.fail_input('strict_pd', 'the zero matrix is accepted as a strictly positive definite prior (got %s)' % oc, dict(d=d))
     # learners that need a strictly PD prior reject a singular one
     import metric_learn
     for name in ('ITML', 'LSML', 'SDML'):
@@ -296,7 +310,7 @@ def run(ctx):
         kw0['max_iter'] = 5
       ref = None
       for vname, arr in (('float64', base.copy()), ('int64', base.astype(np.int64)), ('int32', base.astype(np.int32)),
-                         ('fortran', np.asfortranarray(base))):
+                         ('fortran', np.asfortranarray(base)), ('float32', base.astype(np.float32))):
         kw = dict(kw0)
         kw[key] = arr
         with warnings.catch_warnings():
@@ -311,6 +325,11 @@ def run(ctx):
         if oc != 'ok':
           ctx.fail_input('array_dtype', '%s: %s array given as %s raises %s' % (name, key, vname, oc),
                          dict(estimator=name, option=key, dtype=vname, array=base.tolist()))
+        elif vname == 'float32':
+          # single precision is kept (the iterations then run in it): only "fit returns a finite model of the right shape"
+          if r.components_.shape != ref.shape or r.components_.dtype.kind != 'f' or not np.isfinite(r.components_).all():
+            ctx.fail_input('array_dtype', '%s: %s array given as float32: components_ is not a finite float array of the right shape' % (name, key),
+                           dict(estimator=name, option=key, dtype=vname, array=base.tolist()))
         elif r.components_.shape != ref.shape or r.components_.dtype.kind != 'f' or \
             not np.allclose(r.components_, ref, rtol=1e-5, atol=1e-7 * (1 + np.abs(ref).max())):
           ctx.fail_input('array_dtype', '%s: %s array given as %s learns a different model than the same numbers as float64' % (name, key, vname),
